@@ -48,4 +48,47 @@ theorem foldl_bestStep_isSome (ks : List Str) :
         | some p => obtain ⟨i, b⟩ := p; simp only [bestStep, hm, hatt, if_true]; split <;> rfl
     · right; simpa [Bool.and_eq_true] using h
 
+theorem bestStep_congr {keys keys' : List Str} {c : Cand}
+    (h : localNamesMatch keys c.localNames = localNamesMatch keys' c.localNames) (acc : Option (ClassId × Nat)) :
+    bestStep keys acc c = bestStep keys' acc c := by
+  simp [bestStep, h]
+
+theorem foldl_bestStep_congr {keys keys' : List Str} :
+    ∀ (cands : List Cand), (∀ c ∈ cands, localNamesMatch keys c.localNames = localNamesMatch keys' c.localNames) →
+      ∀ acc, cands.foldl (bestStep keys) acc = cands.foldl (bestStep keys') acc := by
+  intro cands
+  induction cands with
+  | nil => intro _ acc; rfl
+  | cons c cs ih =>
+    intro h acc
+    rw [List.foldl_cons, List.foldl_cons, bestStep_congr (h c (List.mem_cons_self ..))]
+    exact ih (fun c' h' => h c' (List.mem_cons_of_mem _ h')) _
+
+/-! ### single branches of `workStep` / `candidateConfig` (unfoldings) -/
+
+/-- the candidates are tried with conversions strict and the two other flags as given -/
+theorem candidate_config_spec (cfg : ParserConfig) :
+    (candidateConfig cfg).failOnConverterWarnings = true
+    ∧ (candidateConfig cfg).failOnUnknownProperties = cfg.failOnUnknownProperties
+    ∧ (candidateConfig cfg).failOnUnknownAttributes = cfg.failOnUnknownAttributes := ⟨rfl, rfl, rfl⟩
+
+/-- (formerly known finding `C10-dict-best-strict-conversion`, repaired):
+with `fail_on_converter_warnings` off, when no candidate binds under the strict copy the
+candidates are ranked under the caller's own configuration; with the flag on the strict failure stands. -/
+theorem best_lenient_fallback (cfg : ParserConfig) (keys : List Str) (cands : List CandC)
+    {err : Err} (hs : bindBest cfg keys (cands.map (·.under (candidateConfig cfg))) = .error err) :
+    (workStep cfg (.best keys cands)).1 =
+      if cfg.failOnConverterWarnings then .error err
+      else (match bindBest cfg keys (cands.map (·.under cfg)) with
+        | .ok c => .ok (.chose c)
+        | .error e => .error e) := by
+  simp only [workStep, hs]
+  split <;> rfl
+
+/-- a strict success is final: the lenient attempts are not consulted -/
+theorem best_strict_first (cfg : ParserConfig) (keys : List Str) (cands : List CandC)
+    {c : ClassId} (hs : bindBest cfg keys (cands.map (·.under (candidateConfig cfg))) = .ok c) :
+    (workStep cfg (.best keys cands)).1 = .ok (.chose c) := by
+  simp only [workStep, hs]
+
 end Proofs.C10Dict
